@@ -3,11 +3,16 @@ import itertools
 import json
 import random
 
+import checker_cluster as K
 import common as C
+import gen_checker as G
 
 PROP = "C05"
-CONE = ["Model/Base.v", "Gen/Generated.v", "Model/Bind.v", "Spec/C05Check.v", "Proofs/DictLemmas.v",
-        "Proofs/BindRefine.v", "Proofs/BindAgree.v", "Props/C05.v"]
+CONE = sorted(set(["Model/Base.v", "Gen/Generated.v", "Model/Bind.v", "Spec/C05Check.v", "Proofs/DictLemmas.v",
+                   "Proofs/BindRefine.v", "Proofs/BindAgree.v", "Props/C05.v"] + K.MODEL_FILES))
+RULE_C = ("whole calls (checker-cluster cases as for C01: all callable kinds x sync/async, chains of classes, error "
+          "factories whose parameters partly have default values): whatever a condition, a capture or an error factory "
+          "receives under the name of a parameter is the object the body receives (spec_C05_call).")
 HEADER = "From ICV Require Import Base Bind C05Check.\nOpen Scope string_scope.\nOpen Scope list_scope.\n"
 
 
@@ -132,6 +137,11 @@ def generate(tier, rng):
 
 
 def run(tier, replay=None):
+    if replay and "kind" in json.load(open(replay)).get("case", {}):
+        out, build, problems = K.begin(PROP, tier, CONE, "Props/C05.v")
+        K.run_into(out, build, problems, PROP, tier, ["spec_C05_call"], lambda rng, n: G.gen_many(rng, n), 1200, 25000,
+                   RULE_C, replay=replay)
+        return out.finish()
     out = C.Outcome(PROP, tier)
     rng = random.Random(C.seed())
     build = C.regenerate_and_build()
@@ -239,6 +249,11 @@ def run(tier, replay=None):
     })
     out.assumptions = ["values are opaque identity tags", "CPython binding is modelled by Bind.pybind and compared with "
                        "CPython on every case (ref_mismatch must be 0)"]
+    if not replay:
+        bind_cov = {k: out.coverage.get(k) for k in ("vm_compute_cases", "corpus_cases", "stats", "exhaustive")}
+        K.run_into(out, build, problems, PROP, tier, ["spec_C05_call"], lambda rng, n: G.gen_many(rng, n), 1200, 25000,
+                   RULE_C)
+        out.coverage["bind_cluster"] = bind_cov
     return out.finish()
 
 
